@@ -260,7 +260,7 @@ def handler_type(ctx):
     ctx.check(used == [name], "name-agreement", db.where(het), "HTML error template asks for encoding_errors=%s, handler registered as %r" % (used, name), "both use %r" % name)
 
 
-@rule("C10.decode-type", min_instances=3)
+@rule("C10.decode-type", min_instances=3, props=["C02"])
 def decode_type(ctx):
     """decode.<enc> returns str for str, bytes and any other object"""
     db = ctx.db
